@@ -253,6 +253,13 @@ pub fn run(a: &Args, m: &mut Mon) {
         for ends in [vec![5.0, 10.0, 15.0], vec![1.0], vec![1.0, 1.0, 2.0, 2.0], vec![-0.0, 0.0, 1.0]] {
             explore_pairs(m, &ends, true, &mut r);
         }
+        let big: Vec<f64> = (0..70_001).map(|i| (i / 3) as f64 * 0.5).collect();
+        let pw = tag_pw(&big);
+        for pol in [Policy::Jumps, Policy::Up, Policy::LastFirst, Policy::ExactHits] {
+            let xs = gen_history(&mut r, &big, 40, pol);
+            tag_sequence(m, &big, &pw, &xs, "sequence", true);
+        }
+        m.count("function_longer_than_65536");
     }
     let nseq = a.n(1_200_000, 100_000_000);
     let maxlen = if a.thorough() { 100_000 } else { 300 };
